@@ -5,17 +5,21 @@ Check (C09_agree :
     ~ Known_C09_not f ev -> ~ Known_C09_or f ev ->
     where_accepts f ev = step_accepts f ev).
 Print Assumptions C09_agree.
+Print unit. (* ends the axiom block in the transcript *)
 
 Check (C09_translation_total : forall f : expr, exists p, to_pred f = Some p).
 Print Assumptions C09_translation_total.
+Print unit. (* ends the axiom block in the transcript *)
 
 Check (C09_not_refuted :
   exists f ev, Known_C09_not f ev /\ where_accepts f ev <> step_accepts f ev).
 Print Assumptions C09_not_refuted.
+Print unit. (* ends the axiom block in the transcript *)
 
 Check (C09_or_refuted :
   exists f ev, Known_C09_or f ev /\ where_accepts f ev <> step_accepts f ev).
 Print Assumptions C09_or_refuted.
+Print unit. (* ends the axiom block in the transcript *)
 
 (* the classes, so that they cannot be widened silently *)
 Print Known_C09_not.
